@@ -9,27 +9,32 @@
 use crate::prelude::*;
 
 macro_rules! limit_tail {
-    ($s:ident, $ks:ident, $off:expr, $left:expr, $nmax:expr) => {{
+    ($mk:expr, $ks:ident, $off:expr, $left:expr, $nlo:expr, $nmax:expr) => {{
         const NMAX_: usize = $nmax;
         const LEFT_: usize = $left;
+        const NLO_: usize = $nlo;
         let n: usize = kani::any();
-        kani::assume(n <= NMAX_);
+        kani::assume(n >= NLO_ && n <= NMAX_);
         let data: [u8; NMAX_ + 1] = kani::any();
         let mut buf = data;
-        let pos_before = $s.try_current_pos::<u128>().ok();
-        let blk_before = $s.get_core().get_block_pos();
+        let s0 = $mk;
+        let pos_before = s0.try_current_pos::<u128>().ok();
+        let blk_before = s0.get_core().get_block_pos();
         let fits = n <= LEFT_;
         let mut ok = false;
         let mut ok2 = true;
         let mut pos_after = None;
         let mut blk_same = false;
-        split_on!(n, 0, NMAX_, n_ => {
-            ok = $s.try_apply_keystream(&mut buf[..n_]).is_ok();
-            pos_after = $s.try_current_pos::<u128>().ok();
-            blk_same = $s.get_core().get_block_pos() == blk_before;
+        // the object is rebuilt inside every branch (an object mutated in one branch would reach
+        // the next branch in a merged state)
+        split_on!(n, NLO_, NMAX_, n_ => {
+            let mut s = $mk;
+            ok = s.try_apply_keystream(&mut buf[..n_]).is_ok();
+            pos_after = s.try_current_pos::<u128>().ok();
+            blk_same = s.get_core().get_block_pos() == blk_before;
             if n_ == LEFT_ {
                 // the request ended exactly at the limit: one more byte must be refused
-                ok2 = $s.try_apply_keystream(&mut buf[NMAX_..]).is_ok();
+                ok2 = s.try_apply_keystream(&mut buf[NMAX_..]).is_ok();
             }
         });
         assert!(ok == fits, "request accepted iff it ends at or before the keystream limit");
@@ -54,7 +59,7 @@ macro_rules! limit_tail {
         }
         kani::cover!(fits && n == LEFT_);
         kani::cover!(!fits);
-        kani::cover!(n == 0);
+        kani::cover!(n == NLO_);
     }};
 }
 
@@ -74,19 +79,22 @@ macro_rules! ctr_limit {
             let first: $ct = <$ct>::MAX - R as $ct;
             let mut ks = [0u8; R * B];
             spec::ctr_ks(c.p(), $spec, &iv, first as u128, &mut ks);
-            let mut s = StreamCipherCoreWrapper::from_core(ctr::CtrCore::<_, ctr::flavors::$flavor>::inner_iv_init(c.clone(), blk::<$bs>(&iv)));
-            if $via_seek {
-                let start: u128 = (first as u128) * B as u128 + OFF as u128;
-                assert!(s.try_seek(start).is_ok());
-                assert!(s.try_current_pos::<u128>().ok() == Some(start));
-            } else {
-                let mut core = ctr::CtrCore::<_, ctr::flavors::$flavor>::inner_iv_init(c.clone(), blk::<$bs>(&iv));
-                core.set_block_pos(first);
-                s = StreamCipherCoreWrapper::from_core(core);
-                let mut skip = [0u8; OFF];
-                assert!(s.try_apply_keystream(&mut skip).is_ok());
-            }
-            limit_tail!(s, ks, OFF, LEFT, LEFT + B + 1);
+            let mk = || {
+                let mut s = StreamCipherCoreWrapper::from_core(ctr::CtrCore::<_, ctr::flavors::$flavor>::inner_iv_init(c.clone(), blk::<$bs>(&iv)));
+                if $via_seek {
+                    let start: u128 = (first as u128).wrapping_mul(B as u128).wrapping_add(OFF as u128);
+                    s.try_seek(start).unwrap();
+                    assert!(s.try_current_pos::<u128>().ok() == Some(start));
+                } else {
+                    let mut core = ctr::CtrCore::<_, ctr::flavors::$flavor>::inner_iv_init(c.clone(), blk::<$bs>(&iv));
+                    core.set_block_pos(first);
+                    s = StreamCipherCoreWrapper::from_core(core);
+                    let mut skip = [0u8; OFF];
+                    s.try_apply_keystream(&mut skip).unwrap();
+                }
+                s
+            };
+            limit_tail!(mk(), ks, OFF, LEFT, if B <= 4 { 0 } else if LEFT > 3 { LEFT - 3 } else { 0 }, if B <= 4 { LEFT + B + 1 } else { LEFT + 3 });
         }
     };
 }
@@ -105,12 +113,15 @@ macro_rules! belt_limit {
             let s0 = spec::belt_s0(c.p(), &iv);
             let mut ks = [0u8; R * B];
             spec::belt_ks(c.p(), s0, first, &mut ks);
-            let mut core = belt_ctr::BeltCtrCore::inner_iv_init(c.clone(), blk::<U16>(&iv));
-            core.set_block_pos(first);
-            let mut s = StreamCipherCoreWrapper::from_core(core);
-            let mut skip = [0u8; OFF];
-            assert!(s.try_apply_keystream(&mut skip).is_ok());
-            limit_tail!(s, ks, OFF, LEFT, LEFT + B + 1);
+            let mk = || {
+                let mut core = crate::common::belt_core(c.clone(), &iv);
+                core.set_block_pos(first);
+                let mut s = StreamCipherCoreWrapper::from_core(core);
+                let mut skip = [0u8; OFF];
+                s.try_apply_keystream(&mut skip).unwrap();
+                s
+            };
+            limit_tail!(mk(), ks, OFF, LEFT, if LEFT > 3 { LEFT - 3 } else { 0 }, LEFT + 3);
         }
     };
 }
@@ -126,7 +137,7 @@ macro_rules! ctr_seek_end {
             let iv: [u8; B] = kani::any();
             let mut s = ctr::$alias::<UfE<$bs, U1>>::new(&key.into(), blk::<$bs>(&iv));
             let end: u128 = (<$ct>::MAX as u128) * B as u128;
-            assert!(s.try_seek(end).is_ok());
+            s.try_seek(end).unwrap();
             assert!(s.try_current_pos::<u128>().ok() == Some(end));
             let d: [u8; 2] = kani::any();
             let mut buf = d;
